@@ -116,6 +116,20 @@ CLAIMS["C17"] = dict(
          "errors raised by str(tree) on the fallback path belong to C01/C02.",
     technique="must-be-inside-try + handler coverage lattice + parameter-rooted write-set (effect) analysis")
 
+CLAIMS["C09"] = dict(
+    level="other", engine="pyflow",
+    text="Forward-only numbering decided by construction, exhaustively over all planner call sites: Result is minted only by "
+         "PlanStep.result from an assigned number; step_num is stored only by the constructor parameter, by add_step "
+         "(position, followed by the append) and by the sub-step namer, and no Step constructor call passes one; step lists "
+         "are mutated only by append in add_step and the plan object is rebound only at from_query entry; container "
+         "typestate by forward dataflow: every top-level add in PlanJoinTablesQuery happens with the map-reduce partition "
+         "closed. Explicit raises are PlanningException/NotImplementedError; asserts and unguarded int()/float() of "
+         "query-derived values are violations. Implicit internal errors of the planner and 'last step produces the answer' "
+         "are NOT decided.",
+    note="Assumes steps run in list order and sub-steps run with their container; references inside embedded queries "
+         "(Parameter(Result)) are covered because they can only come from PlanStep.result.",
+    technique="who-may-construct / who-may-write scans + typestate dataflow on the partition protocol")
+
 NA_PENDING = "check under construction in this session; not claimed until its rule module is committed"
 
 
